@@ -44,6 +44,9 @@ def combos(tier):
                     sc = G.scalings_of(spec, (0, 1))[k % 2]
                     k += 1
                     out.append((spec, {"control": ctl, "penalty": pen, "newton": nt}, sc))
+        # every row displayed: the display timer is read and reset all the time, the deadline must not notice
+        out.append((spec, {"control": "DistanceRatio", "penalty": "DualNorm", "newton": "Simplified", "display_interval": 0.0}, None))
+        out.append((spec, {"control": "Exact", "penalty": "ObjectiveFilter", "newton": "Simplified", "display_interval": 2e-6}, None))
     return out
 
 
